@@ -188,7 +188,12 @@ func (l *listener) handle(conn net.Conn) {
 	start := time.Now()
 	err = l.compiledRoute.Handle(cx)
 	duration := time.Since(start)
-	if err != nil && !errors.Is(err, errHijacked) {
+	if errors.Is(err, errHijacked) {
+		// the connection now belongs to whoever accepted it from the wrapped
+		// listener and may be in use already: its counters are no longer ours to read
+		return
+	}
+	if err != nil {
 		l.logger.Error("handling connection", zap.Error(err))
 	}
 
